@@ -1,5 +1,102 @@
+(** C35 property theorems (partial: ciphers, MACs and zlib are oracles, see the hypotheses).
+
+    [feed_all ... chunks] is the receiver AS WRITTEN (getPacket with its cached first block and stateful
+    decryptor, the [while packet:] loop of dataReceived, the repaired version-line search) fed the deliveries
+    [chunks]; [spec_parse] iterates a pure one-frame step over the WHOLE stream. *)
 From Coq Require Import List NArith Bool.
-From C35 Require Import Model.
-Theorem placeholder : forall bs, pad_len bs 0 = pad_len bs 0.
-Proof. reflexivity. Qed.
-Print Assumptions placeholder.
+From TwLib Require Import Seg.
+From C35 Require Import Model Proofs Roundtrip.
+Import ListNotations.
+Local Open Scope N_scope.
+
+(** For EVERY cipher/MAC/decompression oracle (no hypothesis on them at all), block size > 0, MAC size,
+    start mode (before or after the version exchange) and EVERY way of cutting a byte stream into
+    deliveries — banner lines, the version line, block boundaries and MACs may be split anywhere — the
+    receiver's events (version string, payloads, DISCONNECT codes) are those of the whole-stream parse.
+    Side condition: no packet of the stream decodes to an empty payload (dataReceived's [while packet:]
+    stops at one; every packet sendPacket frames carries at least its message-type byte). *)
+Theorem receiver_is_segmentation_invariant :
+  forall (DS ZS : Type) (dec : DS -> bytes -> bytes * DS) (verify : N -> bytes -> bytes -> bool)
+         (decomp : ZS -> bytes -> option (bytes * ZS)) (bs ms : N),
+  0 < bs ->
+  forall (x0 : mode DS ZS) (chunks : list bytes) (stream : bytes),
+  concat chunks = stream ->
+  astep DS ZS dec verify decomp bs ms x0 [] = Wait ->
+  Forall (fun e => match e with EDeliver [] => False | _ => True end)
+         (fst (spec_parse DS ZS dec verify decomp bs ms x0 stream)) ->
+  fst (feed_all DS ZS dec verify decomp bs ms (mkc DS ZS [] None x0 false) chunks)
+  = fst (spec_parse DS ZS dec verify decomp bs ms x0 stream).
+Proof. exact any_segmentation. Qed.
+Print Assumptions receiver_is_segmentation_invariant.
+
+(** Full statement: for any payloads, any supported cipher x MAC x compression, any segmentation of the
+    sender's stream INCLUDING banner lines and the version line, exactly the payloads are delivered in order.
+    Proved here from the state reached after the version line ([gotv = true]); the version phase is covered
+    by the previous theorem and by the correspondence run only.  Hypotheses: block size >= 8 (every cipher of
+    the transport, and "none"), the three oracle contracts below, padding of the length sendPacket computes,
+    packets within the receiver's 1 MiB limit, non-empty payloads. *)
+Theorem payloads_delivered_in_order_any_segmentation_partial :
+  forall (ES DS CS ZS : Type) (enc : ES -> bytes -> bytes * ES) (dec : DS -> bytes -> bytes * DS)
+         (mac : N -> bytes -> bytes) (verify : N -> bytes -> bytes -> bool)
+         (comp : CS -> bytes -> bytes * CS) (decomp : ZS -> bytes -> option (bytes * ZS)) (bs ms : N),
+  8 <= bs ->
+  forall (csync : ES -> DS -> Prop) (zsync : CS -> ZS -> Prop),
+  (* cipher: dec (enc x) = x on synchronised states, first block decryptable on its own, length kept *)
+  (forall e d x y e', csync e d -> enc e x = (y, e') -> bs <= len x -> len x mod bs = 0 ->
+     len y = len x /\
+     exists d1 d2, dec d (take bs y) = (take bs x, d1) /\ dec d1 (drop bs y) = (drop bs x, d2) /\ csync e' d2) ->
+  (* MAC: a genuine MAC verifies and has the negotiated size *)
+  (forall seq p, verify seq p (mac seq p) = true /\ len (mac seq p) = ms) ->
+  (* compression: decompress is the streaming inverse of compress *)
+  (forall c z x y c', zsync c z -> comp c x = (y, c') -> exists z', decomp z y = Some (x, z') /\ zsync c' z') ->
+  forall (items : list (bytes * bytes)) (seq : N) e c d z (chunks : list bytes),
+  csync e d -> zsync c z ->
+  all_sendable ES CS enc mac comp bs (mks ES CS seq e c) items ->
+  Forall (fun it => fst it <> []) items ->
+  concat chunks = fst (send_all ES CS enc mac comp (mks ES CS seq e c) items) ->
+  fst (feed_all DS ZS dec verify decomp bs ms (mkc DS ZS [] None (mkm DS ZS true seq d z) false) chunks)
+  = map (fun it => EDeliver (fst it)) items.
+Proof.
+  intros ES DS CS ZS enc dec mac verify comp decomp bs ms Hbs csync zsync H1 H2 H3.
+  exact (delivered_any_segmentation ES DS CS ZS enc dec mac verify comp decomp bs ms Hbs csync zsync H1 H2 H3).
+Qed.
+Print Assumptions payloads_delivered_in_order_any_segmentation_partial.
+
+(** Full statement: altering any byte of a MAC-protected packet causes a disconnect and the altered payload
+    is never delivered.  Proved: (1) a packet is delivered only if the MAC verified over the current sequence
+    number and exactly the decrypted packet bytes, and the sequence number then advances by one; (2) if that
+    verification fails the outcome is never a delivery: DISCONNECT 5 (MAC error), DISCONNECT 2 (the altered
+    length field is inconsistent) or waiting for the bytes the altered length field asks for.  That an
+    altered packet fails verification is the (cryptographic) ideal-MAC hypothesis, not a theorem. *)
+Theorem tampered_packet_disconnects_and_not_delivered_partial :
+  forall (DS ZS : Type) (dec : DS -> bytes -> bytes * DS) (verify : N -> bytes -> bytes -> bool)
+         (decomp : ZS -> bytes -> option (bytes * ZS)) (bs ms : N) (x : mode DS ZS) (b f : bytes) (ds1 : DS),
+  ms <> 0 ->
+  let plen := be32 (take 4 f) in
+  let packet := f ++ fst (dec ds1 (drop bs (take (4 + plen) b))) in
+  let macd := take ms (drop (4 + plen) b) in
+  (forall p x' rest, packet_body DS ZS dec verify decomp bs ms x b f ds1 = POk DS ZS p x' rest ->
+     verify (inseq DS ZS x) packet macd = true /\ inseq DS ZS x' = inseq DS ZS x + 1) /\
+  (verify (inseq DS ZS x) packet macd = false ->
+     match packet_body DS ZS dec verify decomp bs ms x b f ds1 with
+     | POk _ _ _ _ _ => False | PWait _ _ => True | PFail _ _ c => c = 2 \/ c = 5 end).
+Proof.
+  intros DS ZS dec verify decomp bs ms x b f ds1 Hms. cbv zeta. split.
+  - intros p x' rest H. exact (delivered_mac_verified DS ZS dec verify decomp bs ms x b f ds1 p x' rest H Hms).
+  - exact (mac_failure_disconnects DS ZS dec verify decomp bs ms x b f ds1 Hms).
+Qed.
+Print Assumptions tampered_packet_disconnects_and_not_delivered_partial.
+
+(** once DISCONNECT has been sent nothing is delivered any more *)
+Theorem nothing_delivered_after_disconnect :
+  forall (DS ZS : Type) (dec : DS -> bytes -> bytes * DS) (verify : N -> bytes -> bytes -> bool)
+         (decomp : ZS -> bytes -> option (bytes * ZS)) (bs ms : N) (c : cst DS ZS) (data : bytes),
+  cdead DS ZS c = true -> data_received DS ZS dec verify decomp bs ms c data = ([], c).
+Proof. exact dead_absorbs. Qed.
+Print Assumptions nothing_delivered_after_disconnect.
+
+(** sendPacket's framing (RFC 4253 section 6): total length a multiple of the block size, 4..bs+3 padding bytes *)
+Theorem sender_framing_wellformed : forall bs n, 4 <= bs ->
+  (5 + n + pad_len bs n) mod bs = 0 /\ 4 <= pad_len bs n /\ pad_len bs n <= bs + 3.
+Proof. exact pad_len_ok. Qed.
+Print Assumptions sender_framing_wellformed.
